@@ -225,7 +225,7 @@ class PG:
 
 def gen_program(rng):
     pg = PG(rng, CFG_NAMES, SYM_NAMES)
-    kind = rng.choice(['expr', 'expr', 'multi', 'multi', 'multi', 'long', 'raises', 'global', 'callable', 'annot'])
+    kind = rng.choice(['expr', 'expr', 'multi', 'multi', 'multi', 'long', 'raises', 'global', 'callable', 'annot', 'semi'])
     lines = []
     if kind == 'expr':
         lines = [pg.expr(rng.choice([1, 2, 3]))]
@@ -241,6 +241,20 @@ def gen_program(rng):
     elif kind == 'raises':
         lines += pg.stmt(1)
         lines.append(rng.choice(['undefined_name + 1', '1 // 0', 'data["nope"]', 'elems[99]', 'int("x")', 'helper()', f'{pg.int_name()} + "str"']))
+    elif kind == 'semi':
+        # a semicolon is only a statement separator where Python says so: not inside string literals, and it may follow an indented statement
+        a = pg.int_name()
+        form = rng.choice(['literal', 'dictkey', 'block', 'fstring', 'assign'])
+        if form == 'literal':
+            lines += [f"'x;y' + str({a})"]
+        elif form == 'dictkey':
+            lines += ["d = {'k;': " + a + ", 'j': 2}", "d['k;'] + d['j']"]
+        elif form == 'block':
+            lines += [f'if {a} > -1000:', '    p = 1; q = 2', 'else:', '    p = q = 0', f'p + q + {a}']
+        elif form == 'fstring':
+            lines += ['t = ";".join(["a", "b"])', f"f'{{t}};{{{a}}}'"]
+        else:
+            lines += [f'u = "a;b".split(";"); w = len(u)', f'w + {a}']
     elif kind == 'annot':
         # annotations are expressions like any other: evaluated when the def / the annotated assignment runs, over the same names
         a, b = pg.int_name(), pg.int_name()
